@@ -72,7 +72,7 @@ def run(prop, gi, g, tier, known, do_replay):
     # the encoder could not execute the (changed) code: the solver gives no verdict. As a safety net the native scenario
     # families of the stream replay program are run; a natively failing scenario is still a real, replayed violation.
     enc_fail = [i for i in out["inconclusive"] if "encode" in i or "outside the encoder" in i or "no obligation" in i]
-    if enc_fail and not out["violations"] and do_replay and (prop in ("C13", "C20") or (prop == "C05" and "L8" in g["lemmas"]) or (prop == "C18" and any(l.startswith("Lprefix") for l in g["lemmas"]))):
+    if enc_fail and not out["violations"] and do_replay and ((prop in ("C13", "C20") and "L1" not in g["lemmas"]) or (prop == "C05" and "L8" in g["lemmas"]) or (prop == "C18" and any(l.startswith("Lprefix") for l in g["lemmas"]))):
         from . import slicereplay
         fn = os.path.join(VERIF, "replays", prop, "native_fallback_slice.txt")
         os.makedirs(os.path.dirname(fn), exist_ok=True)
@@ -80,13 +80,12 @@ def run(prop, gi, g, tier, known, do_replay):
         rp = slicereplay.confirm(prop, "native_fallback", {}, fn)
         if rp["reproduced"]:
             out["violations"].append(dict(harness="native slice families (encoder fallback)", what=rp["detail"], replay=rp["path"]))
-    if enc_fail and not out["violations"] and g.get("native_fallback", True) and do_replay and prop in ("C05", "C07", "C08", "C17", "C18"):
+    if enc_fail and not out["violations"] and g.get("native_fallback", True) and do_replay and (prop in ("C05", "C07", "C08", "C17", "C18") or (prop == "C20" and "L1" in g["lemmas"])):
         from . import streamreplay
         fn = os.path.join(VERIF, "replays", prop, "native_fallback.txt")
         os.makedirs(os.path.dirname(fn), exist_ok=True)
         open(fn, "w").write(f"# {prop}: engine B could not encode the current tree ({enc_fail[0][:300]}); native scenario families run instead\n")
         rp = streamreplay._confirm(prop, "native_fallback", dict(model_values={}), fn)
-        accept = {"C05": ("C05", "C07"), "C07": ("C07", "C05"), "C08": ("C08",), "C17": ("C17",), "C18": ("C18", "C07")}[prop]
         if rp["reproduced"]:
             out["violations"].append(dict(harness="native scenario families (encoder fallback)", what=rp["detail"], replay=rp["path"]))
     out["evidence"] = dict(engine="mirsym (own MIR symbolic executor) + z3 " + d.get("z3_version", ""), lemmas=g["lemmas"],
@@ -110,7 +109,8 @@ def replay(prop, name, ob, d, do_replay):
     if prop == "C06":
         from . import allocreplay
         return allocreplay.confirm(fn)
-    slice_side = prop in ("C13", "C20", "C01") or (prop == "C05" and "stream" not in name) or (prop == "C18" and "prefix" in name.lower())
+    stream_ob = name.startswith(("L1.", "L2.", "C07.", "C17."))   # obligations about ElfStream (C20's stream typed views)
+    slice_side = (prop in ("C13", "C20", "C01") and not (prop == "C20" and stream_ob)) or (prop == "C05" and "stream" not in name) or (prop == "C18" and "prefix" in name.lower())
     if slice_side:
         from . import slicereplay
         return slicereplay.confirm(prop, name, ob, fn)
